@@ -35,7 +35,7 @@ def _opt_list(rng, pool):
 
 def gen_plan(rng, idx):
     route = rng.choice(ROUTES + ['plain', 'server'])
-    transport = rng.choice(['run', 'run', 'run', 'my', 'my', 'lt'])
+    transport = rng.choice(['run', 'run', 'run', 'my', 'my', 'lt', 'textgears'])
     ml = rng.random() < 0.6
     lang = rng.choice(shellscen.LANG_CODES)
     plain_input = route != 'server' and rng.random() < 0.07
@@ -132,6 +132,23 @@ def gen_plan(rng, idx):
         a = W.words(2)
         docs[0].insert(rng.randrange(len(docs[0]) + 1), docgen.frag(
             'define_use', '\\dfmac{%s} \\dfgen{} %s.\n' % (a[0], a[1]), a, g=[w]))
+    opts.update({'seqs': False, 'dcls': '', 'pack': '*', 'extr': None})
+    if not plain_input:
+        if rng.random() < 0.15:
+            opts['seqs'] = True
+            argv.append('--simple-equations')
+        if rng.random() < 0.12:
+            opts['dcls'] = rng.choice(['article', 'scrartcl', 'book', 'scrbook'])
+            argv += ['--documentclass', opts['dcls']]
+        if rng.random() < 0.12:
+            opts['pack'] = rng.choice([
+                'amsmath,amsthm,babel,hyperref,xcolor,graphicx',
+                '*,cleveref', 'babel,amsthm,amsmath,xcolor,hyperref,biblatex'])
+            argv += ['--packages', opts['pack']]
+        if rng.random() < 0.08:
+            opts['extr'] = rng.choice(['footnote', 'caption,footnote',
+                                       'section,textbf', 'emph'])
+            argv += ['--extract', opts['extr']]
     if rng.random() < 0.12:
         argv += ['--equation-punctuation', rng.choice(['all', 'disp', 'inline'])]
     if rng.random() < 0.1:
@@ -154,6 +171,9 @@ def gen_plan(rng, idx):
     elif transport == 'lt':
         argv += ['--server', 'lt']
         http = {'remote_down': rng.random() < 0.05}
+    elif transport == 'textgears':
+        argv += ['--textgears', 'DEMO_KEY']
+        http = {'remote_down': rng.random() < 0.05}
     # targets
     lit = [w for d in docs for w in docgen.literal_words(d)]
     targets = rng.sample(lit, min(len(lit), rng.randrange(1, 13))) if lit else []
@@ -163,6 +183,45 @@ def gen_plan(rng, idx):
             'ensure_ascii': rng.random() < 0.3,
             'subid': rng.random() < 0.6, 'urls': rng.random() < 0.6,
             'http': http}
+    # configurations: some options come from the config file .yalafi.shell
+    # (config + argv are parsed together, later values win); with --no-config
+    # the file must be ignored
+    cfg_mode = rng.choice(['none', 'none', 'split', 'split', 'overridden',
+                           'no_config'])
+    if cfg_mode != 'none':
+        groups = []
+        for a in argv:
+            if a.startswith('--') or not groups:
+                groups.append([a])
+            else:
+                groups[-1].append(a)
+        lines = []
+        if cfg_mode == 'split':
+            keep = []
+            for g in groups:
+                # an empty option value cannot be written in the config file
+                if rng.random() < 0.5 and all(x.strip() for x in g):
+                    lines.append(' '.join(g))
+                else:
+                    keep.append(g)
+            argv = [a for g in keep for a in g]
+        elif cfg_mode == 'overridden':
+            # the config names other values; the command line wins
+            if '--language' in argv:
+                lines.append('--language zz-ZZ')
+            if '--disable' in argv:
+                lines.append('--disable CONFIG_RULE')
+            if '--ml-rule-threshold' in argv:
+                lines.append('--ml-rule-threshold 77')
+            if '--context' in argv:
+                lines.append('--context 9')
+            lines.append('  --lt-command   conflt  ')
+        else:
+            lines += ['--language zz-ZZ', '--disable CONFIG_RULE',
+                      '--multi-language', '--plain-input']
+            argv.append('--no-config')
+        files['.yalafi.shell'] = {'text': '\n'.join(lines) + '\n'}
+    opts['cfg_mode'] = cfg_mode
     plan = {'kind': 'shell', 'route': route, 'transport': transport,
             'peer': peer, 'opts': opts, '_index': idx}
     if route == 'server':
@@ -245,7 +304,9 @@ def reference_parts(plan, us):
     for (_, tex, eff) in us:
         op = {'latex': tex,
               'opts': {'char': True, 'repl': repl, 'defs': defs,
-                       'lang': eff['lang'], 'pack': '*', 'dcls': ''},
+                       'lang': eff['lang'], 'pack': o.get('pack', '*'),
+                       'dcls': o.get('dcls', ''), 'seqs': o.get('seqs', False),
+                       'extr': o.get('extr')},
               'ml': bool(o['ml'])}
         if o['ml']:
             op['mod'] = {'ml_continue_thresh': o['ml_cont_thresh']}
@@ -314,6 +375,8 @@ def norm_submission(sub):
         return (d['--language'], d['--disable'], d['--enable'],
                 d['--disablecategories'], d['--enablecategories'],
                 rest + tail)
+    if sub['transport'] == 'textgears':
+        return (None, None, None, None, None, [])
     f = sub['fields']
     rest = sorted(k for k in f if k not in (
         'language', 'disabledRules', 'enabledRules', 'disabledCategories',
@@ -356,7 +419,8 @@ def evaluate(plan):
         no_answer = (
             (plan['transport'] == 'my' and not http.get('initially_up')
              and http.get('boot_delay', 0) >= 9.5)
-            or (plan['transport'] == 'lt' and http.get('remote_down')))
+            or (plan['transport'] in ('lt', 'textgears')
+                and http.get('remote_down')))
         if no_answer and '*** yalafi.shell: ' in obs['stderr']:
             probes['no_answer'] = 1
             probes['lt_server_boot_wait_s'] = int(obs.get('slept', 0))
@@ -393,6 +457,11 @@ def evaluate(plan):
             return viol('submissions:text', k=k, got=sub['text'][:200],
                         want=text[:200])
         n = norm_submission(sub)
+        if sub['transport'] == 'textgears':
+            # one submission per part; no language, no rule options
+            probes['transport_textgears_parts'] = \
+                probes.get('transport_textgears_parts', 0) + 1
+            continue
         if n[0] != lang:
             return viol('submissions:language', k=k, got=n[0], want=lang)
         if sub['transport'] == 'run' and sub.get('cwd') != o['lt_dir']:
